@@ -401,14 +401,14 @@ theorem heapRun_written_ge (ops : List HeapOp) (input : ArrDesc) :
 
 /-- …whereas the in-place variant does write the caller's buffer for a C-contiguous float64 array (negative witness) -/
 theorem ctor_inplace_writes_caller :
-    (0 : ℕ) ∈ (heapRun [HeapOp.asarray, .ascontig64, .nanToNumInPlace] ⟨0, true, true, true⟩).written := by
+    (0 : ℕ) ∈ (heapRun [HeapOp.asarray, .ascontig64, .nanToNumInPlace] ⟨0, true, false, true, true⟩).written := by
   simp [heapRun, heapStep]
 
 /-- and a non-contiguous / non-float64 / list input is copied first, so even the in-place variant spares it -/
 theorem ctor_inplace_spares_copied (input : ArrDesc) (h : ¬ (input.isArray = true ∧ input.contig = true ∧ input.f64 = true)) :
     input.buf ∉ (heapRun [HeapOp.asarray, .ascontig64, .nanToNumInPlace] input).written := by
-  obtain ⟨buf, contig, f64, isArray⟩ := input
-  cases contig <;> cases f64 <;> cases isArray <;> simp [heapRun, heapStep] at h ⊢ <;> omega
+  obtain ⟨buf, contig, fcontig, f64, isArray⟩ := input
+  cases contig <;> cases fcontig <;> cases f64 <;> cases isArray <;> simp [heapRun, heapStep] at h ⊢ <;> omega
 
 end Model
 
